@@ -95,11 +95,13 @@ func design(rep *mbt.Report, tier string) (asImpl, repaired map[string]bool) {
 		// lazily cached pointer types of globals/functions nil or stale at print time (struct literal with
 		// Typ nil, which the documentation allows, or a Type() that re-derives a stale cache): operand
 		// printing writes them without any mutex, so even module printers race on a first print
-		{label: "unfilled global caches, 2 module printers, fresh", cfg: "PrintConc.cfg", consts: with(two, "StartPrinted", "FALSE", "GCachePrefilled", "FALSE"), expect: []string{"NoRace"}},
-		{label: "unfilled global caches classes, 2 module printers, fresh", cfg: "PrintConcLog.cfg", consts: with(two, "StartPrinted", "FALSE", "GCachePrefilled", "FALSE"), collect: true},
+		{label: "unfilled global caches, 2 module printers, fresh", cfg: "PrintConc.cfg", consts: with(two, "StartPrinted", "FALSE", "GCachePrefilled", "FALSE", "FillGlobalCachesUnderLock", "FALSE"), expect: []string{"NoRace"}},
+		{label: "unfilled global caches classes, 2 module printers, fresh", cfg: "PrintConcLog.cfg", consts: with(two, "StartPrinted", "FALSE", "GCachePrefilled", "FALSE", "FillGlobalCachesUnderLock", "FALSE"), collect: true},
 		{label: "repaired, unfilled global caches, already printed", cfg: "PrintConc.cfg", consts: with(two, "GCachePrefilled", "FALSE")},
-		// repair candidate: AssignGlobalIDs computes the types while it holds Module.mu
+		// as the code is since a8ce732: AssignGlobalIDs computes the types while it holds Module.mu; what is left
+		// for lock-free readers next to a first print is collected by the second job
 		{label: "repaired, unfilled global caches filled under Module.mu, fresh", cfg: "PrintConc.cfg", consts: with(two, "StartPrinted", "FALSE", "GCachePrefilled", "FALSE", "FillGlobalCachesUnderLock", "TRUE")},
+		{label: "repaired classes, stale global caches, module+func+block, fresh", cfg: "PrintConcLog.cfg", consts: with(mixed, "StartPrinted", "FALSE", "GCachePrefilled", "FALSE"), collect: true},
 		// a printing helper that keeps scratch state in a package-level variable: racy and wrong text from
 		// the already-printed state too (and between printers of different modules: the cell belongs to no module)
 		{label: "sensitivity: package-level scratch state, already printed", cfg: "PrintConc.cfg", consts: with(two, "SharedScratch", "TRUE"), expect: []string{"NoRace", "TextEqual"}},
